@@ -143,6 +143,84 @@ fn layout(m: Method) -> (usize, usize) {
     }
 }
 
+/// Extraction from the SECOND step of a two-step run whose last step is shortened to land on
+/// xend (first step h0 = 1 answered with zeros, second step of length 1/2 answered with the unit
+/// impulses).  `xout`: the callback after the first step returns XOut, which must not disturb
+/// the reuse of the derivative at the new point (FSAL).  Explicit methods only.
+pub fn extract_second_step(m: Method, sign: f64, xout: bool) -> Result<Extracted, String> {
+    let (n, bcall) = layout(m);
+    if m == Method::RADAU || m == Method::BDF {
+        return Err("not applicable".into());
+    }
+    let p = impulse_problem(n);
+    let h0 = sign;
+    let xend = 1.5 * sign;
+    let mut c = Cfg::new(m, 0.0, xend, &p.y0);
+    c.first_step = Some(h0);
+    c.keep_log = true;
+    c.rtol = Tol::S(0.0);
+    c.atol = Tol::S(1e30);
+    // call index (in the whole run) that supplies stage j of the second step
+    let map = move |j: usize| -> usize {
+        match m {
+            Method::RK4 => 4 + j,
+            Method::RK23 => 3 + j,
+            Method::DOPRI5 => 6 + j,
+            Method::DOP853 => {
+                if j == 0 {
+                    12
+                } else {
+                    15 + j
+                }
+            }
+            _ => usize::MAX,
+        }
+    };
+    let ans = move |idx: u64, _t: f64, _y: &[f64], d: &mut [f64]| {
+        for v in d.iter_mut() {
+            *v = 0.0;
+        }
+        for j in 0..n {
+            if map(j) == idx as usize {
+                d[j] = 1.0;
+            }
+        }
+    };
+    let thetas = theta_nodes();
+    let script: Vec<(usize, Ans)> = if xout { vec![(1, Ans::XOut(10.0 * sign)), (2, Ans::Interrupt)] } else { vec![(2, Ans::Interrupt)] };
+    let r: LowRun = run_lowlevel(&p, &c, &script, &thetas, Some(&ans), false);
+    if r.recs.len() < 3 {
+        return Err(format!("two-step impulse run failed: {} ({} callbacks)", r.outcome_name(), r.recs.len()));
+    }
+    let (x1, x2) = (r.recs[1].x, r.recs[2].x);
+    if x1 != h0 || x2 != xend {
+        return Err(format!("two-step impulse run took steps to {:e}, {:e} (expected {:e}, {:e})", x1, x2, h0, xend));
+    }
+    let h = x2 - x1;
+    let calls: Vec<_> = r.st.log.iter().filter(|cl| !cl.in_jac).collect();
+    let s = n;
+    if calls.len() <= map(s - 1) {
+        return Err(format!("{} RHS calls, expected more than {}", calls.len(), map(s - 1)));
+    }
+    let mut a = vec![vec![0.0; s]; s];
+    let mut cc = vec![0.0; s];
+    for j in 0..s {
+        let cl = &calls[map(j)];
+        for i in 0..s {
+            a[j][i] = cl.y[i] / h;
+        }
+        cc[j] = (cl.t - x1) / h;
+    }
+    let b: Vec<f64> = (0..s).map(|i| r.recs[2].y[i] / h).collect();
+    for i in 0..s {
+        if (a[bcall][i] - b[i]).abs() > 0.0 {
+            return Err(format!("second step: row {} of A differs from the accepted state in component {}", bcall, i));
+        }
+    }
+    let bt: Vec<Vec<f64>> = r.interior[2].iter().map(|(_, v)| (0..s).map(|i| v[i] / h).collect()).collect();
+    Ok(Extracted { method: m, s, a, c: cc, b, thetas, btheta: bt, calls: calls.len() })
+}
+
 pub fn extract(m: Method, sign: f64) -> Result<Extracted, String> {
     let (n, bcall) = layout(m);
     let p = impulse_problem(n);
